@@ -171,6 +171,12 @@ def user_roots():
     rt8, rti8 = Rg('RangeTo', Tup(u32, 2)), Rg('RangeToInclusive', Arr(u16, 4))
     r += [Arr(rt8, 2), Opt(Arr(rt8, 2)), Opt(Opt(Arr(rt8, 2))), Opt(Opt(Opt(Arr(rt8, 2)))), U(PRE, [Arr(rt8, 3)]), U(PRE, [Arr(rti8, 2)]),
           Arr(Arr(rti8, 2), 2), U(D2, [Arr(rti8, 1)]), U(PRE, [rt8]), U(PRE, [Vec(rt8)]), Vec(rti8), Bd(Arr(rt8, 1)), U(PRE, [Tup(rt8, 2)])]
+    # every kind of leaf read through the ε-copy path (a bare type parameter) and FOLLOWED by an aligned borrowed block:
+    # the cursor position after each leaf reader must be right for the padding of the next block
+    for leaf in [bool_, char_, u8, i16, u32, f64, u128, P('NonZeroU16'), UNIT, RFULL, Ph(u8), Opt(bool_), Opt(u8), Bd(bool_), Fl(bool_, u8),
+                 STR, BOXSTR, Tup(u8, 3), Arr(u8, 3), Arr(bool_, 1), Rg('RangeTo', u8), Rg('RangeInclusive', u8), Opt(Opt(char_))]:
+        r.append(U(D3, [leaf, Vec(u64)]))
+    r += [U(D19, [bool_, char_, Vec(u32)]), U(D19, [Opt(bool_), u8, Vec(u128)]), U(D19, [u8, bool_, Vec(U(Z1))]), U(D11, [bool_, u16])]
     return r
 
 
